@@ -27,6 +27,7 @@ def builtinNames : List String :=
 /-- what a type name resolves to -/
 inductive RK
   | builtin
+  | dynamic                  -- `any` and `message`: values of any type, not a value type of their own
   | enum
   | message
   | struct (pkg name : String)
@@ -60,8 +61,8 @@ def Import.name (i : Import) : String := if i.alias = "" then baseName i.id else
 
 /-- resolution of a base type inside file `f` of package `p` -/
 def resolveBase (b : Bundle) (p : Pkg) (f : File) : BaseT → Option RK
-  | .any => some .builtin
-  | .anyMessage => some .builtin
+  | .any => some .dynamic
+  | .anyMessage => some .dynamic
   | .name n => if n ∈ builtinNames then some .builtin else p.lookup n
   | .ref i n =>
     match f.imports.find? fun im => im.name == i with
